@@ -635,7 +635,7 @@ def pe_with_certs(signed_asset_bytes, k):
     return bytes(b)
 
 
-def elf32(nsections=0, nsegments=0, ndynamic=0, nsymbols=0, dynsym=False):
+def elf32(nsections=0, nsegments=0, ndynamic=0, nsymbols=0, dynsym=False, bad_names=False):
     """ELF32 LE, ET_EXEC; tables laid out one after the other"""
     ehsize = 52
     out = bytearray(ehsize)
@@ -654,7 +654,7 @@ def elf32(nsections=0, nsegments=0, ndynamic=0, nsymbols=0, dynsym=False):
     if nsymbols:
         o = len(out)
         for i in range(nsymbols):
-            out += struct.pack("<IIIBBH", 1, i, 4, 0x12, 0, 1)
+            out += struct.pack("<IIIBBH", 0x7FFFFF00 if bad_names else 1, i, 4, 0x12, 0, 1)   # st_name outside the table
         so = len(out)
         out += b"\0sym\0"
         data_secs.append((11 if dynsym else 2, o, nsymbols * 16, 16, len(data_secs) + 2))
@@ -675,7 +675,7 @@ def elf32(nsections=0, nsegments=0, ndynamic=0, nsymbols=0, dynsym=False):
         elif i == 0:
             out += bytes(40)
         else:
-            out += struct.pack("<IIIIIIIIII", 1, 1, 2, 0x8060000 + i, ehsize, 0, 0, 0, 1, 0)
+            out += struct.pack("<IIIIIIIIII", 0x7FFFFF00 if bad_names else 1, 1, 2, 0x8060000 + i, ehsize, 0, 0, 0, 1, 0)
     if ndynamic and nsegments:
         # PT_DYNAMIC pointing at the dynamic entries
         ty, o, sz, _, _ = data_secs[0]
@@ -752,10 +752,16 @@ def synth_specs(assets, caps):
         S.append(("elf_dynamic_%d" % n, (lambda n=n: elf32(nsegments=1, ndynamic=n)), "elf", "dynamic", n))
         S.append(("elf_symtab_%d" % n, (lambda n=n: elf32(nsymbols=n)), "elf", "symtab", n))
         S.append(("elf_dynsym_%d" % n, (lambda n=n: elf32(nsymbols=n, dynsym=True)), "elf", "dynsym", n))
+        # the degenerate branch of the loops: symbols / sections whose name index points outside the string table
+        S.append(("elf_symtab_badnames_%d" % n, (lambda n=n: elf32(nsymbols=n, bad_names=True)), "elf", "symtab", n))
+        S.append(("elf_dynsym_badnames_%d" % n, (lambda n=n: elf32(nsymbols=n, dynsym=True, bad_names=True)), "elf", "dynsym", n))
+        S.append(("elf_sections_badnames_%d" % n, (lambda n=n: elf32(nsections=n, bad_names=True)), "elf", "sections", n))
     M = c["MAX_NB_SEGMENTS_macho"]
     for n in around(M, M + 500):
         S.append(("macho_segments_%d" % n, (lambda n=n: macho32(nsegments=n)), "macho", "segments", n))
         S.append(("macho_sections_%d" % n, (lambda n=n: macho32(1, n)), "macho", "segments[].sections", n))
+    for nm, io, th in (("thin", 64, True), ("self", 0, False), ("self_thin", 0, True), ("beyond", 4096, True)):
+        S.append(("macho_fat_nested_" + nm, (lambda io=io, th=th: macho_fat_nested(io, th)), "macho", "file", 1))
     for n in around(c["MAX_NB_ARCHS"], 300):
         S.append(("macho_fat_%d" % n, (lambda n=n: macho_fat(n)), "macho", "fat_arch", n))
     return S
@@ -1969,3 +1975,44 @@ def rich_family(assets):
         for o, _, _, _ in ents:
             edits += [{"op": "set", "off": o, "hex": enc(c0, 4, False)}, {"op": "set", "off": o + 4, "hex": enc(M ^ key, 4, False)}]
         yield ("rich duplicates of entry 0, times=max", a[0], None, edits, rich_rules(pairs[:1]))
+
+
+def version_table_cuts(b, limit=260):
+    """Cuts at EVERY byte inside the version-info string tables (header, wide key, String entries) of a PE that has
+    one; each cut alone and with the byte before the cut set to 0.  Yields (what, edits)."""
+    ents = version_entries(b)
+    tables = [e for e in ents if e[0] == "table"]
+    # the resource directory must still lie inside the cut file (SectionTable::get_dir_data slices offset..offset+size):
+    # its declared size is shrunk to end at the cut
+    nt = u32(b, 0x3c)
+    opt = nt + 24
+    dd = opt + (112 if u16(b, opt) == 0x20b else 96)
+    S = pe_layout(b)[2]
+    rva = u32(b, dd + 16)
+    roff = None
+    for sva, vs, raw, rs in S:
+        if sva <= rva < sva + max(vs, rs):
+            roff = raw + rva - sva
+    n = 0
+    for _, off, kl in tables:
+        end = min(len(b), off + ((u16(b, off) + 3) & ~3))
+        for c in range(off + 1, min(end, off + limit) + 1):
+            fit = [{"op": "set", "off": dd + 20, "hex": enc(c - roff, 4, False)}] if roff is not None and c > roff else []
+            yield ("cut at %d (table@%#x+%d)" % (c, off, c - off), fit + [{"op": "trunc", "len": c}])
+            yield ("cut at %d, last byte 0" % c, fit + [{"op": "set", "off": c - 1, "hex": "00"}, {"op": "trunc", "len": c}])
+            n += 2
+        if n > 4 * limit:
+            break
+
+
+def macho_fat_nested(inner_offset, thin=True):
+    """fat32 whose single arch slot holds another fat header; the inner header's arch points at `inner_offset`
+    (relative to the inner slice: 0 = the inner fat header itself) — optionally followed by a thin Mach-O"""
+    t = macho32(1, 1) if thin else b""
+    inner = bytearray(64) + t
+    struct.pack_into(">II", inner, 0, 0xcafebabe, 1)
+    struct.pack_into(">IIIII", inner, 8, 7, 3, inner_offset, max(0, len(inner) - inner_offset) if inner_offset else len(inner), 0)
+    outer = bytearray(64)
+    struct.pack_into(">II", outer, 0, 0xcafebabe, 1)
+    struct.pack_into(">IIIII", outer, 8, 7, 3, 64, len(inner), 0)
+    return bytes(outer) + bytes(inner)
